@@ -95,6 +95,20 @@ impl LogInnerManager {
         &&& hdr_of(a.take(32)) == self.header
     }
     pub open spec fn wf(&self) -> bool { self.wf_data() && self.wf_points() && self.wf_area() }
+
+    /// C04 (crash points): `wf_points` without the in-memory counter `current_index_count` — the sparse index may LAG behind the
+    /// data (the entry of the last complete interval not written yet, or index entries already popped by a truncation that has
+    /// not reached the data), by at most what the end-of-log scan of a reopen walks (0xffff records)
+    pub open spec fn wf_points_lag(&self) -> bool {
+        let ix = self.indexs@;
+        &&& idx_wf(ix, self.header.index_interval as int) && ix.len() < 0x1000
+        &&& ix[0].log_index == self.start_index && ix[0].file_index == 4096
+        &&& forall|j: int| 0 <= j < ix.len() ==> self.start_index <= #[trigger] ix[j].log_index <= self.start_index + self.msg_count
+        &&& forall|j: int| 0 <= j < ix.len() ==> #[trigger] ix[j].file_index - 4096 == scan(self.recs(), (ix[j].log_index - self.start_index) as nat).0
+        &&& self.msg_count - (ix.last().log_index - self.start_index) <= 0xffff
+    }
+    /// a disk state from which a reopen recovers exactly this index, these cursors and this record count (lemma_reopen)
+    pub open spec fn wf_lag(&self) -> bool { self.wf_data() && self.wf_points_lag() && self.wf_area() }
 }
 
 /// the record stream after an append at the cursor: same bytes below, the frame, zeros behind
@@ -894,7 +908,7 @@ impl LogInnerManager {
 /// C02: for every well-formed state, decoding its disk image the way `init` does (read_indexs on bytes 32..4096, then the scan from
 /// the last index entry to the first zero length) yields exactly the index, the cursors and the record count of that state
 pub proof fn lemma_reopen(m: LogInnerManager)
-    requires m.wf()
+    requires m.wf_lag()
     ensures ({
         let img = m.disk_image();
         let a = img.subrange(32, 4096);
@@ -966,6 +980,272 @@ pub proof fn lemma_reopen(m: LogInnerManager)
     lemma_scan_bounds(suffix, rest);
 }
 
+
+// ------------------------------------------------------------------ C04: crash points of one log file
+/// `img` is the disk state of a log that a reopen recovers as `m` (lemma_reopen): a ghost witness, its in-memory counter is irrelevant
+pub open spec fn image_of(img: Seq<u8>, m: LogInnerManager) -> bool { m.wf_lag() && m.disk_image() == img }
+
+/// the records `o` held are where they were, byte for byte
+pub open spec fn keeps_records(o: LogInnerManager, m: LogInnerManager) -> bool {
+    &&& m.header == o.header && m.start_index == o.start_index
+    &&& forall|j: nat| j <= o.msg_count ==> #[trigger] scan(m.recs(), j) == scan(o.recs(), j)
+    &&& m.recs().take(o.used()) == o.recs().take(o.used())
+}
+
+/// C04, append: at every instant between two file mutations of `write` the disk holds the log as it was, or the log with exactly
+/// the new record behind it — never a partial or a foreign entry, never an index entry that points behind the data
+pub open spec fn crash_ok_append(o: LogInnerManager, img: Seq<u8>, body: Seq<u8>) -> bool {
+    exists|m: LogInnerManager| #[trigger] image_of(img, m) && keeps_records(o, m)
+        && (m.msg_count == o.msg_count
+            || (m.msg_count == o.msg_count + 1 && m.used() == o.used() + enc(body.len() as nat).len() + body.len()
+                && m.recs().subrange(o.used(), m.used()) == enc(body.len() as nat).add(body)))
+}
+
+/// every finite sequence is the view of some Vec (used only to name a ghost witness state; std Vec holds up to isize::MAX elements)
+pub axiom fn axiom_vec_of_seq<T>(s: Seq<T>)
+    requires s.len() < 0x1_0000
+    ensures exists|v: Vec<T>| #[trigger] v@ == s;
+
+/// the data file grown by zeros (set_len): same log, still well formed
+pub proof fn lemma_grow_wf(o: LogInnerManager, n: LogInnerManager)
+    requires o.wf(),
+        n.header == o.header && n.start_index == o.start_index && n.msg_count == o.msg_count && n.data_cursor == o.data_cursor
+            && n.indexs == o.indexs && n.index_cursor == o.index_cursor && n.index_file.contents() == o.index_file.contents()
+            && n.current_index_count == o.current_index_count && n.need_seek_at_write == o.need_seek_at_write,
+        !n.need_seek_at_write ==> n.data_file.pos() == n.data_cursor,
+        n.file_len == n.data_file.contents().len(), o.file_len <= n.file_len < 0x1_0000_0000,
+        n.data_file.contents().take(o.file_len as int) == o.data_file.contents(),
+        zero_from(n.data_file.contents(), o.file_len as int),
+    ensures n.wf(), keeps_records(o, n)
+{
+    let d0 = o.data_file.contents();
+    let d1 = n.data_file.contents();
+    let s0 = o.recs();
+    let s1 = n.recs();
+    let k = o.msg_count as nat;
+    let b = o.used();
+    assert forall|i: int| 0 <= i < d0.len() implies d1[i] == d0[i] by { assert(d1.take(o.file_len as int)[i] == d0[i]); }
+    assert(s1.take(b) =~= s0.take(b));
+    lemma_scan_prefix(s0, s1, k);
+    lemma_ok_prefixes_prefix(s0, s1, k);
+    assert forall|j: nat| j <= k implies #[trigger] scan(s1, j) == scan(s0, j) by {
+        lemma_scan_mono(s0, j, k);
+        lemma_scan_bounds(s0, j);
+        assert(s1.take(scan(s0, j).0) =~= s0.take(scan(s0, j).0));
+        lemma_scan_prefix(s0, s1, j);
+    }
+    assert forall|i: int| n.data_cursor <= i < d1.len() implies #[trigger] d1[i] == 0u8 by { if i < d0.len() { assert(d0[i] == 0u8); } }
+    assert forall|j: int| 0 <= j < n.indexs@.len() implies #[trigger] n.indexs@[j].file_index - 4096 == scan(s1, (n.indexs@[j].log_index - n.start_index) as nat).0 by {
+        let jj = (o.indexs@[j].log_index - o.start_index) as nat;
+        assert(jj <= k);
+        assert(scan(s1, jj) == scan(s0, jj));
+    }
+}
+
+/// the record is on disk, the index entry of a complete interval is not (yet): a reopen finds the longer log
+pub proof fn lemma_write_lag(o: LogInnerManager, n: LogInnerManager, body: Seq<u8>)
+    requires o.wf(), write_data_step(o, n, body),
+        n.indexs == o.indexs && n.index_cursor == o.index_cursor && n.index_file == o.index_file,
+    ensures n.wf_lag(), keeps_records(o, n)
+{
+    lemma_write_data(o, n, body);
+    let ix = o.indexs@;
+    assert forall|j: int| 0 <= j < ix.len() implies #[trigger] ix[j].file_index - 4096 == scan(n.recs(), (ix[j].log_index - n.start_index) as nat).0 by {
+        let jj = (ix[j].log_index - o.start_index) as nat;
+        assert(jj <= o.msg_count);
+        assert(scan(n.recs(), jj) == scan(o.recs(), jj));
+    }
+    assert(n.recs().take(o.used()) =~= o.recs().take(o.used())) by {
+        let c0 = o.data_cursor as int;
+        assert forall|i: int| 0 <= i < o.used() implies n.recs()[i] == o.recs()[i] by {
+            assert(n.data_file.contents().take(c0)[i + 4096] == o.data_file.contents().take(c0)[i + 4096]);
+        }
+    }
+}
+
+/// write_data_step without the cursor position of the handle (a ghost witness of a disk image has no use for it)
+pub open spec fn write_data_img(o: LogInnerManager, n: LogInnerManager, body: Seq<u8>) -> bool {
+    &&& o.data_cursor < 2_000_000_000 && o.index_cursor + 10 < 4096
+    &&& 1 <= body.len() < 0x1000_0000
+    &&& n.header == o.header && n.start_index == o.start_index && n.msg_count == o.msg_count + 1
+    &&& n.data_cursor == o.data_cursor + enc(body.len() as nat).len() + body.len()
+    &&& n.file_len == n.data_file.contents().len() && n.data_cursor < n.file_len && n.file_len < 0x1_0000_0000
+    &&& appended(o.data_file.contents(), n.data_file.contents(), o.data_cursor as int, enc(body.len() as nat).add(body))
+    &&& n.need_seek_at_write
+}
+/// candidate witnesses of a disk image during `write`, built from the state at entry and the CURRENT contents of the two handles
+/// only (so that the same proof script fits every crash point, wherever the writes stand):
+/// (a) nothing happened but zeros behind the old end of the file
+pub open spec fn wit_grown(o: LogInnerManager, cur: LogInnerManager) -> LogInnerManager {
+    LogInnerManager { data_file: cur.data_file, index_file: cur.index_file, file_len: cur.data_file.contents().len() as u64, need_seek_at_write: true, ..o }
+}
+/// (b) the record is behind the old records, the index is as it was
+pub open spec fn wit_data(o: LogInnerManager, cur: LogInnerManager, body: Seq<u8>) -> LogInnerManager {
+    LogInnerManager { data_file: cur.data_file, index_file: cur.index_file, file_len: cur.data_file.contents().len() as u64, need_seek_at_write: true,
+        data_cursor: (o.data_cursor + enc(body.len() as nat).len() + body.len()) as u64, msg_count: (o.msg_count + 1) as u64, ..o }
+}
+/// (c) the record and the index entry of the interval it completes
+pub open spec fn wit_both(o: LogInnerManager, cur: LogInnerManager, body: Seq<u8>, v: Vec<InnerIdxDto>) -> LogInnerManager {
+    let dcur = (o.data_cursor + enc(body.len() as nat).len() + body.len()) as u64;
+    LogInnerManager { data_file: cur.data_file, index_file: cur.index_file, file_len: cur.data_file.contents().len() as u64, need_seek_at_write: true,
+        data_cursor: dcur, msg_count: (o.msg_count + 1) as u64, indexs: v,
+        index_cursor: (o.index_cursor + enc((dcur - o.indexs@.last().file_index) as nat).len()) as u64, current_index_count: 0, ..o }
+}
+pub open spec fn grown_by_zeros(d0: Seq<u8>, d1: Seq<u8>) -> bool {
+    &&& d0.len() <= d1.len() < 0x1_0000_0000
+    &&& forall|i: int| 0 <= i < d0.len() ==> #[trigger] d1[i] == d0[i]
+    &&& forall|i: int| d0.len() <= i < d1.len() ==> #[trigger] d1[i] == 0u8
+}
+pub open spec fn appended_at(d0: Seq<u8>, d1: Seq<u8>, c0: int, frame: Seq<u8>) -> bool {
+    &&& 4096 <= c0 && c0 + frame.len() < d1.len() < 0x1_0000_0000
+    &&& forall|i: int| 0 <= i < c0 ==> #[trigger] d1[i] == d0[i]
+    &&& forall|i: int| 0 <= i < frame.len() ==> #[trigger] d1[c0 + i] == frame[i]
+    &&& forall|i: int| c0 + frame.len() <= i < d1.len() ==> #[trigger] d1[i] == 0u8
+}
+
+/// the crash-point step of `write`: whichever of the three shapes the two files are in, the image has a witness
+pub proof fn lemma_crash_append_step(o: LogInnerManager, cur: LogInnerManager, body: Seq<u8>)
+    requires o.wf(), o.data_cursor < 2_000_000_000 && o.index_cursor + 10 < 4096, 1 <= body.len() < 0x1000_0000,
+        ({
+            let d0 = o.data_file.contents(); let d1 = cur.data_file.contents();
+            let i0 = o.index_file.contents(); let i1 = cur.index_file.contents();
+            let c0 = o.data_cursor as int;
+            let frame = enc(body.len() as nat).add(body);
+            let dcur = c0 + frame.len();
+            let delta = (dcur - o.indexs@.last().file_index) as nat;
+            ||| (i1 == i0 && grown_by_zeros(d0, d1))
+            ||| (i1 == i0 && appended_at(d0, d1, c0, frame))
+            ||| (o.current_index_count + 1 == o.header.index_interval && appended_at(d0, d1, c0, frame)
+                 && i1.len() == i0.len()
+                 && (forall|i: int| 0 <= i < enc(delta).len() ==> #[trigger] i1[o.index_cursor + i] == enc(delta)[i])
+                 && (forall|i: int| 0 <= i < i0.len() && !(o.index_cursor <= i < o.index_cursor + enc(delta).len()) ==> #[trigger] i1[i] == i0[i]))
+        }),
+    ensures crash_ok_append(o, cur.disk_image(), body)
+{
+    let d0 = o.data_file.contents(); let d1 = cur.data_file.contents();
+    let i0 = o.index_file.contents(); let i1 = cur.index_file.contents();
+    let c0 = o.data_cursor as int;
+    let frame = enc(body.len() as nat).add(body);
+    let dcur = c0 + frame.len();
+    let delta = (dcur - o.indexs@.last().file_index) as nat;
+    lemma_enc_len_table(body.len() as nat);
+    if i1 == i0 && grown_by_zeros(d0, d1) {
+        let w = wit_grown(o, cur);
+        let o2 = LogInnerManager { need_seek_at_write: true, ..o };
+        assert(o2.wf());
+        assert(d1.take(o.file_len as int) =~= d0);
+        assert(zero_from(d1, o.file_len as int));
+        lemma_grow_wf(o2, w);
+        assert(o2.recs() == o.recs());
+        assert(w.disk_image() == cur.disk_image());
+        assert(image_of(cur.disk_image(), w) && keeps_records(o, w));
+    } else if i1 == i0 {
+        let w = wit_data(o, cur, body);
+        assert(d1.take(c0) =~= d0.take(c0));
+        assert(d1.subrange(c0, c0 + frame.len()) =~= frame) by {
+            assert forall|i: int| 0 <= i < frame.len() implies d1.subrange(c0, c0 + frame.len())[i] == frame[i] by { assert(d1[c0 + i] == frame[i]); }
+        }
+        assert(zero_from(d1, c0 + frame.len()));
+        let o2 = LogInnerManager { need_seek_at_write: true, ..o };
+        assert(o2.wf());
+        let w2 = LogInnerManager { need_seek_at_write: false, ..w };
+        lemma_write_lag_img(o2, w, body);
+        assert(w.recs().subrange(o.used(), w.used()) =~= frame);
+        assert(w.disk_image() == cur.disk_image());
+        assert(image_of(cur.disk_image(), w) && keeps_records(o, w));
+    } else {
+        let e = InnerIdxDto { log_index: (o.msg_count + 1 + o.header.first_index) as u64, file_index: dcur as u64 };
+        axiom_vec_of_seq(o.indexs@.push(e));
+        let v = choose|v: Vec<InnerIdxDto>| #[trigger] v@ == o.indexs@.push(e);
+        let w = wit_both(o, cur, body, v);
+        assert(d1.take(c0) =~= d0.take(c0));
+        assert(d1.subrange(c0, c0 + frame.len()) =~= frame) by {
+            assert forall|i: int| 0 <= i < frame.len() implies d1.subrange(c0, c0 + frame.len())[i] == frame[i] by { assert(d1[c0 + i] == frame[i]); }
+        }
+        assert(zero_from(d1, c0 + frame.len()));
+        lemma_scan_mono(o.recs(), (o.indexs@.last().log_index - o.start_index) as nat, o.msg_count as nat);
+        lemma_enc_len(body.len() as nat);
+        lemma_enc_len_table(delta);
+        lemma_idx_area_len(o.indexs@);
+        let o2 = LogInnerManager { need_seek_at_write: true, ..o };
+        assert(o2.wf());
+        assert(i1.subrange(o.index_cursor as int, w.index_cursor as int) =~= enc(delta)) by {
+            assert forall|i: int| 0 <= i < enc(delta).len() implies i1.subrange(o.index_cursor as int, w.index_cursor as int)[i] == enc(delta)[i] by { assert(i1[o.index_cursor + i] == enc(delta)[i]); }
+        }
+        lemma_write_both_img(o2, w, body);
+        assert(w.recs().subrange(o.used(), w.used()) =~= frame);
+        assert(w.disk_image() == cur.disk_image());
+        assert(image_of(cur.disk_image(), w) && keeps_records(o, w));
+    }
+}
+
+pub proof fn lemma_write_data_img(o: LogInnerManager, n: LogInnerManager, body: Seq<u8>)
+    requires o.wf_data(), write_data_img(o, n, body)
+    ensures n.wf_data(),
+        forall|j: nat| j <= o.msg_count ==> #[trigger] scan(n.recs(), j) == scan(o.recs(), j),
+        scan(n.recs(), n.msg_count as nat) == (n.used(), n.msg_count as nat),
+        n.recs().take(o.used()) == o.recs().take(o.used()),
+{
+    lemma_append_stream(o.data_file.contents(), n.data_file.contents(), o.data_cursor as int, o.msg_count as nat, body);
+    lemma_enc_len_table(body.len() as nat);
+    lemma_scan_count(n.recs(), n.msg_count as nat);
+    assert(n.recs().take(o.used()) =~= o.recs().take(o.used())) by {
+        let c0 = o.data_cursor as int;
+        assert forall|i: int| 0 <= i < o.used() implies n.recs()[i] == o.recs()[i] by {
+            assert(n.data_file.contents().take(c0)[i + 4096] == o.data_file.contents().take(c0)[i + 4096]);
+        }
+    }
+}
+pub proof fn lemma_write_lag_img(o: LogInnerManager, n: LogInnerManager, body: Seq<u8>)
+    requires o.wf(), write_data_img(o, n, body),
+        n.indexs == o.indexs && n.index_cursor == o.index_cursor && n.index_file.contents() == o.index_file.contents(),
+    ensures n.wf_lag(), keeps_records(o, n)
+{
+    lemma_write_data_img(o, n, body);
+    let ix = o.indexs@;
+    assert forall|j: int| 0 <= j < ix.len() implies #[trigger] ix[j].file_index - 4096 == scan(n.recs(), (ix[j].log_index - n.start_index) as nat).0 by {
+        let jj = (ix[j].log_index - o.start_index) as nat;
+        assert(jj <= o.msg_count);
+        assert(scan(n.recs(), jj) == scan(o.recs(), jj));
+    }
+}
+pub proof fn lemma_write_both_img(o: LogInnerManager, n: LogInnerManager, body: Seq<u8>)
+    requires o.wf(), write_data_img(o, n, body), write_idx_push(o, n),
+    ensures n.wf(), keeps_records(o, n)
+{
+    lemma_write_data_img(o, n, body);
+    lemma_scan_count(n.recs(), n.msg_count as nat);
+    lemma_scan_mono(o.recs(), (o.indexs@.last().log_index - o.start_index) as nat, o.msg_count as nat);
+    lemma_enc_len(body.len() as nat);
+    lemma_write_points_push(o, n);
+    lemma_write_area_push(o, n);
+}
+
+/// C04, append — what the invariant means for the reopen: the recovered record count is the old one or one more, the old records
+/// are untouched, and the image opens (header, index area and record stream are those of a well-formed log)
+pub proof fn lemma_crash_append_meaning(o: LogInnerManager, img: Seq<u8>, body: Seq<u8>)
+    requires o.wf(), crash_ok_append(o, img, body)
+    ensures ({
+        let a = img.subrange(32, 4096);
+        let first = InnerIdxDto { log_index: o.start_index, file_index: 4096 };
+        let d = dec_from(a, 0, read_at(a, 0), 4054);
+        let ix = idx_build(first, o.header.index_interval as int, d);
+        let tail = img.skip(ix.last().file_index as int);
+        let sc = scan(tail, 0xffff);
+        let count = ix.last().log_index - o.start_index + sc.1;
+        &&& img.len() > 4096 && hdr_of(img.take(32)) == o.header
+        &&& ok_stream(tail) && terminated(tail)
+        &&& (count == o.msg_count || count == o.msg_count + 1)
+        &&& img.skip(4096).take(o.used()) == o.recs().take(o.used())
+    })
+{
+    let m = choose|m: LogInnerManager| #[trigger] image_of(img, m) && keeps_records(o, m)
+        && (m.msg_count == o.msg_count
+            || (m.msg_count == o.msg_count + 1 && m.used() == o.used() + enc(body.len() as nat).len() + body.len()
+                && m.recs().subrange(o.used(), m.used()) == enc(body.len() as nat).add(body)));
+    lemma_reopen(m);
+    assert(img.skip(4096) =~= m.recs());
+}
 
 /// the records of a well-formed log are what FileMessageReader expects (canonical 32-bit length prefixes seen through its 10-byte window)
 pub proof fn lemma_ok_prefixes_store_stream(s: Seq<u8>, k: nat)
